@@ -30,7 +30,12 @@ macro_rules! imple_hook_data_env {
 	($t: ty) => {
 		impl HookEnvData for $t {
 			fn set_env(&mut self, env: &HashMap<String, String>) {
-				for (key, value) in env::vars().chain(env.iter().map(deref)) {
+				// The daemon's own environment has the lowest precedence: it must
+				// not override what a previous call has set.
+				for (key, value) in env::vars() {
+					self.env.entry(key).or_insert(value);
+				}
+				for (key, value) in env.iter().map(deref) {
 					self.env.insert(key, value);
 				}
 			}
